@@ -4,7 +4,13 @@
 // script line: variant nops { op rank id }
 //   ops: 0 push(value) 1 emplace(key, key, id) 2 emplace_keyfirst 3 push_to_bucket(get_bucket) 4 top 5 pop 6 peak_top_key 7 swap_top_bucket 8 clear
 #include <common/ndjson.hpp>
+// (the implementation-level comparison with RadixHeapI reads insertion_limit_, current_bucket_ and the bucket sizes)
+#define private public
+#define protected public
 #include <tlx/container/radix_heap.hpp>
+#undef protected
+#undef private
+#include <type_traits>
 #include <algorithm>
 #include <fstream>
 #include <limits>
@@ -54,14 +60,20 @@ static void run(Out& out, int variant, std::istringstream& is) {
         obs += "}";
         ev.raw("obs", obs);
         ev.num("variant", variant);
+        if (sizeof(K) <= 2) {       // internal state for the small key types: encoder ranks fit the model's integers
+            std::vector<long long> sizes;
+            for (auto& b : hp.buckets_data_) sizes.push_back((long long)b.size());
+            ev.raw("ist", "{\"limit\":" + std::to_string((unsigned long long)hp.insertion_limit_) + ",\"cur\":" + std::to_string(hp.current_bucket_) + ",\"sizes\":" + jarr(sizes) + "}");
+        }
         ev.emit(out);
     };
-    { Ev ev("reset"); ev.boolean("monotone", true); emit(ev); }
+    { Ev ev("reset"); ev.boolean("monotone", true).num("w", 8 * (long long)sizeof(K)).num("rb", (long long)tlx::Log2<Radix>::floor); emit(ev); }
     size_t nops; is >> nops;
     for (size_t n = 0; n < nops; ++n) {
         int op; long long r, id; is >> op >> r >> id;
         K key = tab[r % NR];
         Ev ev(NAMES[op]); ev.num("k", r).num("id", id).num("opcode", op);
+        if (sizeof(K) <= 2) ev.num("ikey", (long long)(unsigned long long)tlx::radix_heap_detail::IntegerRank<K>::rank_of_int(key));      // the key as the heap ranks it
         switch (op) {
         case 0: hp.push(std::make_pair(key, id)); break;
         case 1: hp.emplace(key, key, id); break;
